@@ -353,9 +353,8 @@ def check_wrapper(api: str, M, o: dict, opset: int, tables: dict, stats: Counter
             stats["arg_written_through"] += 1
             problems.append(("property", fid, f"{api}{o}: non-in-place variant modified the caller's proto: {dd[:3]}"))
     if ob["ir"]["input_proto_mutated"]:
-        dd = c15_cmp.diff(M0, ob["Mi"])
-        fid = "C15-ALIAS" if dd and all(pred_alias(x) for x in dd) else None
-        problems.append(("property", fid, f"{api}{o}: running the IR entry modified the proto the IR model was deserialised from: {dd[:3]}"))
+        # not an argument of the call (the IR entry's argument is the ir.Model): counted, not judged
+        stats["ir_source_proto_written_through"] += 1
     if ob.get("fns_mutated"):
         problems.append(("property", None, "replace_functions modified the FunctionProtos it was given"))
 
